@@ -196,7 +196,9 @@ def q1(facts, tier):
         ok = tab.literal_only(arm, False)
         yield ob(props, "Q1", f"{arm}:literal-same", "pass" if ok else "violation", where(f),
                  f"diff_schema arm {arm} (no payload) " + ("reports no difference" if ok else "does not plainly report 'no difference'"))
-    ok = tab.literal_only("<top>", True) or any(x["kind"] == "literal" and x["reject"] for x in tab.arms.get("<top>", []))
+    # the fall-through after the variant arms, or a catch-all arm `(a, b) => Some(..)` / `_ => ..`
+    ok = tab.literal_only("<top>", True) or any(x["kind"] == "literal" and x["reject"] for x in tab.arms.get("<top>", [])) \
+        or tab.literal_only("_", True) or any(x["kind"] == "literal" and x["reject"] for x in tab.arms.get("_", []))
     yield ob(props, "Q1", "fallback:literal-differs", "pass" if ok else "violation", where(f),
              "diff_schema: schemas of different variants " + ("are reported as different" if ok else "are NOT reported as different"))
     cross = sorted({pr for fs in tab.arms.values() for x in fs if x["kind"] == "cross-variant-arm" for pr in x["pairs"]})
@@ -240,7 +242,7 @@ def q2(facts, tier):
     if f is None:
         return
     for arm, fs in sorted(tab.arms.items()):
-        if arm == "<top>":
+        if arm in ("<top>", "_"):    # the fall-through and a catch-all arm only see operands of different variants
             continue
         bad = []
         for x in fs:
